@@ -283,8 +283,14 @@ func (ma *ModAnalysis) call(fn *ssa.Function, cc *ssa.CallCommon, mi *modInfo) {
 	case *ssa.MakeClosure:
 		ma.callee(callee.Fn.(*ssa.Function), mi)
 	default:
-		// dynamic call: if it is a parameter / field holding a closure we cannot know; assumption noted at VC time
-		// closures created in this function and passed along are analysed where created: include all anon funcs' effects
+		// dynamic call through a function value: a "callback <Type>" contract gives its effects;
+		// otherwise it is assumed not to touch tracked state (noted at VC generation)
+		key := "callback " + ex.w.typeName(cc.Value.Type())
+		if c, ok := ex.cs.Funcs[key]; ok && c.HasMod {
+			for _, v := range ex.staticModVars(c, nil, cc.Signature()) {
+				mi.vars[v] = true
+			}
+		}
 	}
 }
 
@@ -478,8 +484,23 @@ func (ma *ModAnalysis) LoopObjMods(fr *Frame, li *loopInfo, vars []string) map[s
 		}
 		return m
 	}
-	addObj := func(v string, val ssa.Value) {
-		if t, ok := ma.objTerm(fr, li, val, modVars); ok {
+	// subst maps callee-level values (parameters) to terms valid at the loop header
+	type substT map[ssa.Value]string
+	term := func(val ssa.Value, subst substT) (string, bool) {
+		if subst != nil {
+			if t, ok := subst[val]; ok {
+				return t, t != ""
+			}
+			// inside an inlined callee only parameters (and constants) are known
+			if _, isConst := val.(*ssa.Const); isConst {
+				return fr.val(val).T, true
+			}
+			return "", false
+		}
+		return ma.objTerm(fr, li, val, modVars)
+	}
+	addObj := func(v string, val ssa.Value, subst substT) {
+		if t, ok := term(val, subst); ok {
 			m := get(v)
 			if !contains(m.objs, t) {
 				m.objs = append(m.objs, t)
@@ -512,104 +533,137 @@ func (ma *ModAnalysis) LoopObjMods(fr *Frame, li *loopInfo, vars []string) map[s
 		}
 		return nil, false
 	}
+	var visit func(fn *ssa.Function, ins ssa.Instruction, subst substT, depth int)
+	visit = func(fn *ssa.Function, ins ssa.Instruction, subst substT, depth int) {
+		switch i := ins.(type) {
+		case *ssa.Store:
+			v, ok := ma.rootVar(i.Addr)
+			if !ok {
+				return
+			}
+			if _, isAlloc := baseAlloc(i.Addr); isAlloc {
+				get(v).whole = true // fresh objects only; handled by the allocation frame
+				return
+			}
+			if obj, ok := baseObj(i.Addr); ok {
+				addObj(v, obj, subst)
+			} else {
+				get(v).whole = true
+			}
+		case *ssa.MapUpdate:
+			ms := ex.w.SortOf(i.Map.Type())
+			addObj(ex.mapDomVar(ms), i.Map, subst)
+			addObj(ex.mapValVar(ms), i.Map, subst)
+		case *ssa.Call, *ssa.Defer:
+			var cc *ssa.CallCommon
+			if c, ok := i.(*ssa.Call); ok {
+				cc = &c.Call
+			} else {
+				cc = &i.(*ssa.Defer).Call
+			}
+			if bi, ok := cc.Value.(*ssa.Builtin); ok {
+				if bi.Name() == "delete" {
+					ms := ex.w.SortOf(cc.Args[0].Type())
+					addObj(ex.mapDomVar(ms), cc.Args[0], subst)
+				}
+				return
+			}
+			var c *Contract
+			var callee *ssa.Function
+			var names []string
+			if cc.IsInvoke() {
+				key := ex.w.typeName(cc.Value.Type()) + "." + cc.Method.Name()
+				c = ex.cs.Funcs[key]
+				names = paramNames(nil, cc.Signature(), true)
+			} else if f, ok := cc.Value.(*ssa.Function); ok && f.Pkg == ex.pkg {
+				callee = f
+				c = ex.cs.Funcs[ex.fnKey(f)]
+				names = paramNames(f, f.Signature, false)
+			} else if _, ok := cc.Value.(*ssa.Function); !ok && !cc.IsInvoke() {
+				key := "callback " + ex.w.typeName(cc.Value.Type())
+				c = ex.cs.Funcs[key]
+				names = paramNames(nil, cc.Signature(), true)
+			}
+			sub := newModInfo()
+			ma.instr(fn, ins, sub)
+			if c == nil && !cc.IsInvoke() && callee == nil {
+				// unknown function value: nothing tracked (assumption noted at VC generation)
+			}
+			subVars := append(sortedKeys(sub.vars), sortedKeys(sub.allocVars)...)
+			if c == nil || !c.HasMod {
+				// contract-less, loop-free callee: descend with parameters substituted
+				if c == nil && callee != nil && len(callee.Blocks) > 0 && !hasLoop(callee) && depth < 4 && !ma.recursive(callee) {
+					ns := substT{}
+					for k, p := range callee.Params {
+						if k < len(cc.Args) {
+							if t, ok := term(cc.Args[k], subst); ok {
+								ns[p] = t
+							} else {
+								ns[p] = ""
+							}
+						}
+					}
+					for _, b := range callee.Blocks {
+						for _, ci := range b.Instrs {
+							visit(callee, ci, ns, depth+1)
+						}
+					}
+					return
+				}
+				wholeAll(subVars)
+				return
+			}
+			env := &Env{ex: ex, vars: map[string]*Val{}, cur: fr.cur, old: fr.cur, fr: fr}
+			off := 0
+			if cc.IsInvoke() {
+				if t, ok := term(cc.Value, subst); ok {
+					env.vars["self"] = &Val{T: t, S: SAny}
+				}
+				off = 1
+			} else if callee == nil {
+				off = 1
+			}
+			for k, a := range cc.Args {
+				if k+off < len(names) {
+					if t, ok := term(a, subst); ok {
+						env.vars[names[k+off]] = &Val{T: t, S: ex.w.SortOf(a.Type())}
+					}
+				}
+			}
+			func() {
+				defer func() {
+					if r := recover(); r != nil {
+						if _, ok := r.(specErr); ok {
+							wholeAll(subVars)
+							return
+						}
+						panic(r)
+					}
+				}()
+				for _, mc := range c.Modifies {
+					for _, loc := range ex.resolveModLoc(mc.Expr, env) {
+						if loc.All {
+							get(loc.Var).whole = true
+						} else {
+							m := get(loc.Var)
+							if !contains(m.objs, loc.Obj) {
+								m.objs = append(m.objs, loc.Obj)
+							}
+						}
+					}
+				}
+				for _, v := range sortedKeys(sub.allocVars) {
+					get(v).whole = true
+				}
+			}()
+		}
+	}
 	for _, b := range fr.fn.Blocks {
 		if !li.body[b.Index] {
 			continue
 		}
 		for _, ins := range b.Instrs {
-			switch i := ins.(type) {
-			case *ssa.Store:
-				v, ok := ma.rootVar(i.Addr)
-				if !ok {
-					continue
-				}
-				if obj, ok := baseObj(i.Addr); ok {
-					addObj(v, obj)
-				} else {
-					get(v).whole = true
-				}
-			case *ssa.MapUpdate:
-				ms := ex.w.SortOf(i.Map.Type())
-				addObj(ex.mapDomVar(ms), i.Map)
-				addObj(ex.mapValVar(ms), i.Map)
-			case *ssa.Call, *ssa.Defer:
-				var cc *ssa.CallCommon
-				if c, ok := i.(*ssa.Call); ok {
-					cc = &c.Call
-				} else {
-					cc = &i.(*ssa.Defer).Call
-				}
-				if bi, ok := cc.Value.(*ssa.Builtin); ok {
-					if bi.Name() == "delete" {
-						ms := ex.w.SortOf(cc.Args[0].Type())
-						addObj(ex.mapDomVar(ms), cc.Args[0])
-					}
-					continue
-				}
-				// contract with object-level modifies and invariant arguments?
-				var c *Contract
-				var callee *ssa.Function
-				var names []string
-				if cc.IsInvoke() {
-					key := ex.w.typeName(cc.Value.Type()) + "." + cc.Method.Name()
-					c = ex.cs.Funcs[key]
-					names = paramNames(nil, cc.Signature(), true)
-				} else if f, ok := cc.Value.(*ssa.Function); ok && f.Pkg == ex.pkg {
-					callee = f
-					c = ex.cs.Funcs[ex.fnKey(f)]
-					names = paramNames(f, f.Signature, false)
-				}
-				sub := newModInfo()
-				ma.instr(fr.fn, ins, sub)
-				subVars := append(sortedKeys(sub.vars), sortedKeys(sub.allocVars)...)
-				if c == nil || !c.HasMod {
-					wholeAll(subVars)
-					continue
-				}
-				env := &Env{ex: ex, vars: map[string]*Val{}, cur: fr.cur, old: fr.cur, fr: fr}
-				argVals := cc.Args
-				off := 0
-				if cc.IsInvoke() {
-					if t, ok := ma.objTerm(fr, li, cc.Value, modVars); ok {
-						env.vars["self"] = &Val{T: t, S: SAny}
-					}
-					off = 1
-				}
-				for k, a := range argVals {
-					if k+off < len(names) {
-						if t, ok := ma.objTerm(fr, li, a, modVars); ok {
-							env.vars[names[k+off]] = &Val{T: t, S: ex.w.SortOf(a.Type())}
-						}
-					}
-				}
-				func() {
-					defer func() {
-						if r := recover(); r != nil {
-							if _, ok := r.(specErr); ok {
-								wholeAll(subVars)
-								return
-							}
-							panic(r)
-						}
-					}()
-					for _, mc := range c.Modifies {
-						for _, loc := range ex.resolveModLoc(mc.Expr, env) {
-							if loc.All {
-								get(loc.Var).whole = true
-							} else {
-								m := get(loc.Var)
-								if !contains(m.objs, loc.Obj) {
-									m.objs = append(m.objs, loc.Obj)
-								}
-							}
-						}
-					}
-					_ = callee
-					for _, v := range sortedKeys(sub.allocVars) {
-						get(v).whole = true
-					}
-				}()
-			}
+			visit(fr.fn, ins, nil, 0)
 		}
 	}
 	return res
